@@ -38,10 +38,20 @@ type Val struct {
 type State struct {
 	H    map[string]string // component -> current term
 	Held map[string]int    // static lock knowledge: "comp|ref" -> 0 free, 1 read, 2 write, -1 unknown
+	// Gen: which version a component that is not in H denotes: "" the entry version; otherwise the generation
+	// created by the last total havoc on this path (unknown call, `modifies everything`, loop with an unknown
+	// write set) - a component that is first mentioned after such a havoc is NOT its entry value
+	Gen string
+}
+
+// genMerge: a generation that is the join of several generations (control-flow join, guarded execution)
+type genMerge struct {
+	conds []string
+	gens  []string
 }
 
 func (s *State) clone() *State {
-	n := &State{H: make(map[string]string, len(s.H)), Held: make(map[string]int, len(s.Held))}
+	n := &State{H: make(map[string]string, len(s.H)), Held: make(map[string]int, len(s.Held)), Gen: s.Gen}
 	for k, v := range s.H {
 		n.H[k] = v
 	}
@@ -139,6 +149,8 @@ type FnTrans struct {
 	noGuardCheck      bool
 	slicedArrays      []slicedArr
 	havocAll          bool
+	genCount          int
+	genMerges         map[string]genMerge
 	useBytes          bool
 	sentinels         map[string]string
 	ranges            map[*ssa.Range]*rangeState
@@ -570,7 +582,13 @@ func (t *FnTrans) rangeFact(x string, T types.Type) string {
 		return and(app("wf-slice", x), app("<", app("s.base", x), t.get("$alloc")))
 	case *types.Interface:
 		return "true" // interface values are canonical encodings, not references
-	case *types.Pointer, *types.Map, *types.Chan, *types.Signature:
+	case *types.Pointer:
+		if _, ok := T.(*types.TypeParam); ok {
+			return "true"
+		}
+		// object references are in [0, $alloc); addresses of embedded fields (addrTerm) are negative
+		return app("<", x, t.get("$alloc"))
+	case *types.Map, *types.Chan, *types.Signature:
 		if _, ok := T.(*types.TypeParam); ok {
 			return "true"
 		}
@@ -596,6 +614,11 @@ func (t *FnTrans) get(comp string) string {
 	if !ok {
 		t.fail("component %s has no sort", comp)
 	}
+	if t.cur.Gen != "" {
+		// first reference on this path, after everything has been havocked: the version of that havoc
+		t.cur.H[comp] = t.genVersion(comp, t.cur.Gen)
+		return t.cur.H[comp]
+	}
 	// first reference anywhere: entry version
 	n := q(comp + "@0")
 	if !t.declared[n] {
@@ -618,6 +641,87 @@ func (t *FnTrans) get(comp string) string {
 }
 
 func (t *FnTrans) entryOr(comp string) string { return t.entry.H[comp] }
+
+// newGen: a new havoc generation; every component not yet mentioned on the current path denotes an unknown value
+func (t *FnTrans) newGen() string {
+	t.genCount++
+	return fmt.Sprintf("@G%d", t.genCount)
+}
+
+// havocRest: everything that has not been mentioned so far is havocked as well (called after a total havoc of the
+// known components)
+func (t *FnTrans) havocRest() {
+	t.cur.Gen = t.newGen()
+}
+
+// genVersion: the term component c denotes in generation gen
+func (t *FnTrans) genVersion(c, gen string) string {
+	if gen == "" || strings.HasPrefix(c, "L.") {
+		// lock state of the current goroutine is not changed by callees (balanced locking assumed for unknown code)
+		return t.entryVersion(c)
+	}
+	s, ok := t.compSort[c]
+	if !ok {
+		t.fail("component %s has no sort", c)
+	}
+	n := q(c + gen)
+	if t.declared[n] {
+		return n
+	}
+	if m, ok := t.genMerges[gen]; ok {
+		var terms []string
+		same := true
+		for _, g := range m.gens {
+			v := t.genVersion(c, g)
+			terms = append(terms, v)
+			if v != terms[0] {
+				same = false
+			}
+		}
+		if same {
+			return terms[0]
+		}
+		mt := terms[len(terms)-1]
+		for i := len(terms) - 2; i >= 0; i-- {
+			mt = ite(m.conds[i], terms[i], mt)
+		}
+		t.define(n, s, mt)
+		return n
+	}
+	t.declare(n, s)
+	if c == "$alloc" {
+		t.emit("(assert (>= " + n + " " + q("$alloc@0") + "))")
+		return n
+	}
+	if a, ok := t.cur.H["$alloc"]; ok {
+		t.tfBound = a
+	}
+	t.typedFresh(c, n)
+	t.tfBound = ""
+	if strings.HasPrefix(c, "TD.") {
+		t.emit(fmt.Sprintf("(assert (forall ((td$r Int)) (! (>= (select %s td$r) 0) :pattern ((select %s td$r)))))", n, n))
+	}
+	return n
+}
+
+// mergeGen: the generation at a join of paths with generations gens (conds[i] selects gens[i]; the last is the default)
+func (t *FnTrans) mergeGen(conds, gens []string) string {
+	same := true
+	for _, g := range gens {
+		if g != gens[0] {
+			same = false
+		}
+	}
+	if same {
+		return gens[0]
+	}
+	g := t.newGen()
+	if t.genMerges == nil {
+		t.genMerges = map[string]genMerge{}
+	}
+	t.genMerges[g] = genMerge{conds: append([]string{}, conds...), gens: append([]string{}, gens...)}
+	return g
+}
 
 func (t *FnTrans) set(comp, term string) {
 	for _, l := range t.curLoops {
@@ -780,8 +884,10 @@ func (t *FnTrans) typedFresh(comp, term string) {
 		switch T.Underlying().(type) {
 		case *types.Slice:
 			return and(app("wf-slice", x), app("<", app("s.base", x), bound))
-		case *types.Pointer, *types.Map, *types.Chan, *types.Signature:
-			// closed heap: stored references denote allocated objects
+		case *types.Pointer:
+			// closed heap: stored references denote allocated objects (addresses of embedded fields are negative)
+			return app("<", x, bound)
+		case *types.Map, *types.Chan, *types.Signature:
 			return and(app("<=", "0", x), app("<", x, bound))
 		case *types.Basic:
 			if b := T.Underlying().(*types.Basic); b.Kind() == types.UnsafePointer {
@@ -1098,7 +1204,6 @@ func (t *FnTrans) rpo() []*ssa.BasicBlock {
 	}
 	return post
 }
-
 
 // ghostCompName: heap component of a ghost field. A ghost field whose declared sort mentions a type parameter
 // (U_<name>) is one component per instantiation, since the sort differs.
